@@ -147,7 +147,7 @@ def getAdjacencyValues (nRow nCol nnz : Nat) (B : Nat → Nat → Rat) (a : Args
   if bipartite then
     let vals :=
       if a.values.isNone then stackValues nRow nCol a.valuesRow a.valuesCol (-1)
-      else stackValues nRow nCol a.values .none (-1)
+      else stackValues nRow nCol a.values a.valuesCol (-1)   -- `values` is the alias of `values_row`
     match vals with
     | .error e => .error e
     | .ok s => .ok ⟨nRow + nCol, blockMat nRow B, s, true⟩
